@@ -29,7 +29,7 @@ def bits(k):
 
 
 def build(thorough):
-    T = 1200 if thorough else 200
+    T = 1200 if thorough else 400
     obs = []
 
     def add(func, label, env, t=T):
